@@ -48,8 +48,10 @@ Print Assumptions declare_var_through_block_rejected.
    that the function body declares (it is frozen by MarkFuncArgs and resolved outside the function; since /repo
    6a9c7af the body's declaration no longer adopts it); For loops (loop head with let / const / var declarations and arbitrary initialisers, one Scope
    with MarkForStmt) whose body declares lexically no name that the head DECLARES (the head may mention names the
-   body declares: frozen by MarkForStmt, /repo 6a9c7af); Catch with plain parameters
-   (and the mark after the parameter, /repo 8db4a8d) that the catch block does not redeclare by var/function; Class bodies without a class-expression name
+   body declares: frozen by MarkForStmt, /repo 6a9c7af); Catch whose parameter is a name or a pattern with default
+   values (references, functions / arrows / classes; a default value may mention a later name of the pattern and any
+   name the block declares: mark after the parameter, /repo 8db4a8d) and is not redeclared by var/function in the
+   catch block; Class bodies without a class-expression name
    (methods, field values, computed keys, static blocks = function scopes without parameters); Decl var / function / let-const-class /
    parameter / catch parameter; Ref}: arbitrary nesting, shadowing at every level, use before declaration,
    hoisting of var/function through nested and sibling blocks, loops and catch clauses, closures that use names
@@ -69,9 +71,8 @@ Print Assumptions declare_var_through_block_rejected.
        later parameter, an expression name redeclared inside the function, a loop body that declares lexically a
        name the loop head DECLARES, var redeclaring a catch parameter;
      - shapes on which model and ECMAScript agree on all sampled programs but which the proof does not reach:
-       destructuring defaults in catch heads (since 8db4a8d) and class-expression names (since faa3812; the label
-       machine of the proof has no step for the merge of the pending uses into the name), x => ... and the arrow
-       cover grammar (UndeclareScope).
+       class-expression names (agreeing since faa3812; the label machine of the proof has no step for the merge of
+       the pending uses into the name), x => ... and the arrow cover grammar (UndeclareScope).
    These are checked by the correspondence runs and the oracle only (KNOWN_FINDINGS.txt, keys c04-es:... and
    c04-reject:...); resolution_repaired_witnesses holds the former counterexamples.
    Example (hypotheses satisfiable, non-trivial partition): Main.example_hyps, Main.example_partition,
@@ -165,8 +166,9 @@ Proof. exact w_catch_var_deviates. Qed.
 Print Assumptions resolution_catch_refuted.
 
 (* the counterexamples of three repaired deviations (/repo 6a9c7af, 8db4a8d, faa3812) now resolve as ECMAScript
-   says: "var b; function f(a=b){b; var b}" (inside the fragment of resolution_correct_partial),
-   "var a; try{}catch([b=a]){let a}" and "(class a{m(){a}})" (outside it).  [agrees p]: no redeclaration error,
+   says: "var b; function f(a=b){b; var b}",
+   "var a; try{}catch([b=a]){let a}" (both inside the fragment of resolution_correct_partial) and "(class a{m(){a}})"
+   (outside it).  [agrees p]: no redeclaration error,
    the model resolves p, and its partition by Var is the declarative one. *)
 Theorem resolution_repaired_witnesses : agrees w_default_capture /\ agrees w_catch_head /\ agrees w_classexpr_name.
 Proof. exact (conj w_default_capture_agrees (conj w_catch_head_agrees w_classexpr_name_agrees)). Qed.
